@@ -5,6 +5,7 @@ import (
 	"errors"
 	"fmt"
 	"time"
+	"unicode/utf8"
 
 	"github.com/prometheus/client_golang/prometheus"
 	"github.com/prometheus/common/model"
@@ -275,5 +276,42 @@ func VerifC20_RetrierCheck() {
 	default:
 		vfAssert("other-codes-fail-without-retry", !retry && err != nil)
 		vfReach("no-retry")
+	}
+}
+
+// VerifC20_Truncate: text truncation on an arbitrary valid UTF-8 string of up to 4
+// (quick) / 6 (thorough) bytes and every limit 0..8: the result never exceeds the
+// limit (in bytes resp. runes), is still valid UTF-8 (no character is split), is the
+// input itself when that already fits, and the flag tells whether it was cut.
+//
+//vf:quick unwind=40 decisions=600 paths=1500000 arith=bv steps=8000000
+//vf:thorough unwind=60 decisions=900 paths=20000000 arith=bv steps=16000000
+//vf:expect reach=fits reach=cut-bytes reach=cut-runes
+func VerifC20_Truncate() {
+	n := vfChoice("len", 5+2*vfTier())
+	s := vfString("s", n)
+	vfAssume(utf8.ValidString(s))
+	limit := vfChoice("limit", 9)
+	// bytes
+	out, cut := TruncateInBytes(s, limit)
+	vfAssert("bytes-within-limit", len(out) <= limit)
+	vfAssert("bytes-valid-utf8", utf8.ValidString(out))
+	if len(s) <= limit {
+		vfAssert("bytes-unchanged-when-it-fits", out == s && !cut)
+		vfReach("fits")
+	} else {
+		vfAssert("bytes-flag-says-cut", cut)
+		vfReach("cut-bytes")
+	}
+	// runes
+	rs := []rune(s)
+	out2, cut2 := TruncateInRunes(s, limit)
+	vfAssert("runes-within-limit", len([]rune(out2)) <= limit)
+	vfAssert("runes-valid-utf8", utf8.ValidString(out2))
+	if len(rs) <= limit {
+		vfAssert("runes-unchanged-when-it-fits", out2 == s && !cut2)
+	} else {
+		vfAssert("runes-flag-says-cut", cut2)
+		vfReach("cut-runes")
 	}
 }
